@@ -7,24 +7,34 @@ SD=$(cd "$(dirname "$P")" && pwd)
 NAME=$(basename "$SD")-$ID-$$
 WT=/tmp/try-$NAME; OUTD=/tmp/try-out-$NAME
 git -C /repo worktree add -q --detach $WT HEAD || exit 2
-if ! git -C $WT apply "$P"; then echo "patch does not apply"; git -C /repo worktree remove --force $WT; exit 2; fi
+if ! git -C $WT apply "$P"; then
+  echo "patch does not apply: $P"; git -C /repo worktree remove --force $WT
+  [ -f "$SD/patch.diff" ] && printf '{"check": "%s", "tier": "%s", "exit_code": 2, "detected": false, "violations": [], "error": "patch does not apply to /repo HEAD"}\n' "$ID" "$TIER" > "$SD/detect-$ID.json"
+  exit 2
+fi
 mkdir -p $OUTD
 cd /verif && VERIF_REPO=$WT VERIF_OUT=$OUTD ./check "$ID" --tier "$TIER" > $OUTD/log 2>&1; RC=$?
-tail -6 $OUTD/log
+tail -4 $OUTD/log | cut -c1-300
 /venv/bin/python - "$OUTD" "$ID" "$TIER" "$RC" "$SD" <<'PY'
-import json, sys, os
+import json, sys, os, glob
 outd, pid, tier, rc, sd = sys.argv[1:6]
 ev = {}
 try:
     ev = json.load(open(os.path.join(outd, "evidence", pid + ".json")))
 except Exception:
     pass
-viol = [dict(what=str(v.get("what", v))[:300]) if isinstance(v, dict) else dict(what=str(v)[:300]) for v in ev.get("violations", [])]
+viol = []
+for f in sorted(glob.glob(os.path.join(outd, "replays", pid + "-*.json"))):
+    try:
+        r = json.load(open(f))
+        viol.append(dict(key=r.get("key"), what=str(r.get("what"))[:400], failing_input_found=r.get("failing_input_found")))
+    except Exception:
+        pass
 d = dict(check=pid, tier=tier, exit_code=int(rc), detected=(int(rc) == 1), wall_s=ev.get("wall_s"), violations=viol[:6],
          repo_head=os.popen("git -C /repo rev-parse --short HEAD").read().strip())
 if os.path.exists(os.path.join(sd, "patch.diff")):
     json.dump(d, open(os.path.join(sd, "detect-%s.json" % pid), "w"), indent=1)
-print(json.dumps(d)[:600])
+print("DETECT", os.path.basename(sd), json.dumps(d)[:500])
 PY
 git -C /repo worktree remove --force $WT
 rm -rf $OUTD
